@@ -162,15 +162,32 @@ func c07Run(s c07Spec) (o c07Out) {
 		o.Err = "error"
 		return o
 	}
-	var tb, jb bytes.Buffer
-	if err := pbutil.FTextPB(&tb, m); err != nil {
+	// The writers take any io.Writer: a writer that accepts its input in pieces and yields in between
+	// (a pipe, a socket) keeps the caller's byte slice in use for a while, so a serialiser that hands
+	// out storage it still references shows up as cross-talk or as a race report.
+	tb, jb := &c07SlowWriter{}, &c07SlowWriter{}
+	if err := pbutil.FTextPB(tb, m); err != nil {
 		o.Err = "text writer: " + err.Error()
 	}
-	if err := pbutil.FJSONPB(&jb, m); err != nil {
+	if err := pbutil.FJSONPB(jb, m); err != nil {
 		o.Err = "json writer: " + err.Error()
 	}
-	o.Text, o.JSON = tb.Bytes(), jb.Bytes()
+	o.Text, o.JSON = tb.buf.Bytes(), jb.buf.Bytes()
 	return o
+}
+
+type c07SlowWriter struct{ buf bytes.Buffer }
+
+func (w *c07SlowWriter) Write(p []byte) (int, error) {
+	for off := 0; off < len(p); off += 256 {
+		end := off + 256
+		if end > len(p) {
+			end = len(p)
+		}
+		w.buf.Write(p[off:end])
+		runtime.Gosched()
+	}
+	return len(p), nil
 }
 
 func (a c07Out) diff(b c07Out) string {
